@@ -1,8 +1,8 @@
 """T1 for muduo::net::Buffer: constants and the five branch guards."""
 import re
 
-from ..extract import (HEADER, ExtractError, Tr, ast_dump, const_int, ctype, find_ifs, if_cond, kids, locate_if,
-                       locate_var, mentions, prop_def, the_function, unparen)
+from ..extract import (HEADER, ExtractError, Tr, ast_dump, body_of, const_int, ctype, find_ifs, functions, if_cond, kids,
+                       locate_if, locate_var, mentions, prop_def, the_function, unparen, walk)
 
 NAME = "Buffer"
 
@@ -19,6 +19,28 @@ def generate():
     if not m:
         raise ExtractError("extrabuf is no longer a char array")
     out.append("def extrabufSize : Nat := %s\n" % m.group(1))
+    # the spill area must belong to the call: a `static` one is shared by all io threads (another thread's readv
+    # overwrites it between this thread's readv and its append)
+    out.append("/-- `Buffer::readFd`: `extrabuf` has automatic storage (one per call) -/\ndef extrabufPerCall : Bool := %s\n"
+               % ("false" if extrabuf.get("storageClass") in ("static", "extern") or extrabuf.get("tls") else "true"))
+
+    # the line searches are hand-modelled as "first match inside [from, beginWrite())": that is what the code does as
+    # long as it delegates to the library search over exactly that range
+    def delegates(fn, callee, *must_mention):
+        body = body_of(fn)
+        if any(x.get("kind") in ("WhileStmt", "ForStmt", "DoStmt", "GotoStmt") for x in walk(body)):
+            return False
+        calls = [x for x in walk(body) if x.get("kind") == "CallExpr"
+                 and any(y.get("kind") == "DeclRefExpr" and y.get("referencedDecl", {}).get("name") == callee for y in walk(kids(x)[0]))]
+        return len(calls) == 1 and all(mentions(calls[0], m) for m in must_mention)
+    crlfs = [f for f in functions(docs, "findCRLF") if body_of(f)]
+    eols = [f for f in functions(docs, "findEOL") if body_of(f)]
+    if len(crlfs) != 2 or len(eols) != 2:
+        raise ExtractError("expected two overloads each of findCRLF and findEOL")
+    out.append("/-- both `findCRLF` overloads are one `std::search(from, beginWrite(), kCRLF, kCRLF+2)`, no loop of their own -/\n"
+               "def findCRLFIsSearch : Bool := %s\n" % ("true" if all(delegates(f, "search", "beginWrite", "kCRLF") for f in crlfs) else "false"))
+    out.append("/-- both `findEOL` overloads are one `memchr` over the readable bytes (`readableBytes()` / `beginWrite() - start`) -/\n"
+               "def findEOLIsMemchr : Bool := %s\n" % ("true" if all(delegates(f, "memchr") and (mentions(f, "readableBytes") or mentions(f, "beginWrite")) for f in eols) else "false"))
 
     retrieve = the_function(docs, "retrieve")
     t = Tr({"len": "len", "readableBytes()": "readable"}, consts)
